@@ -125,6 +125,36 @@ def eval_real(pt, case):
             out["shape_ok"] = all(np.shape(v) == (n,) for v in res)
             cols = [np.broadcast_to(np.asarray(v, dtype=float), (n,)) for v in res]
             out["calc"] = [[float(c[i]) for c in cols] for i in range(n)]
+    # a second calculator from materials *derived* from the first one's (a multiple, and one extended in
+    # place), at the same wavelength: it must follow the new materials, whatever the first one remembered
+    out["second"] = None
+    import zlib
+    if res is not None and zlib.crc32(repr(case["materials"]).encode()) % 3 == 0 and case["density"] > 0:
+        try:
+            from periodictable.formulas import formula as _formula
+            k = 2.5
+            ms2 = [k * ms[0]] + list(ms[1:])
+            if len(ms2) > 1:
+                ms2[-1] += _formula("H2O")
+            else:
+                ms2.append(_formula("D2O"))
+            w2 = [1.0] + [0.5 + 0.25 * i for i in range(len(ms2) - 1)]
+            calc2 = nsf.neutron_composite_sld(ms2, wavelength=warg)
+            r2 = calc2(np.array(w2, dtype=float), density=case["density"])
+            mix2 = functools.reduce(operator.add, [w * m for w, m in zip(w2, ms2)])
+            d2 = nsf.neutron_sld(mix2, density=case["density"], wavelength=warg)
+            if (r2[0] is None) != (d2[0] is None):
+                out["second"] = "composite %r, direct %r" % (r2[0] is None, d2[0] is None)
+            elif r2[0] is not None:
+                a = [np.broadcast_to(np.asarray(v, dtype=float), (n,)) for v in r2]
+                b = [np.broadcast_to(np.asarray(v, dtype=float), (n,)) for v in d2]
+                for i in range(n):
+                    for j in range(2):      # real and imaginary (incoherent has its own cancellation rule)
+                        if not close(float(a[j][i]), float(b[j][i]), rel=1e-8, abs_=1e-12 * (1 + abs(float(b[0][i])))):
+                            out["second"] = "component %d at wavelength %d: composite %r, direct %r" % (
+                                j, i, float(a[j][i]), float(b[j][i]))
+        except Exception as e:  # noqa
+            out["second"] = "raises %s: %s" % (type(e).__name__, e)
     atoms = nc.atoms_of(mix)
     out["N"] = nc.number_density(pt, atoms, case["density"]) if atoms else 0.0
     out["tot"] = [0.0 if isinstance(f, str) else nc.sigma_total_xs(f) for f in out["direct_full"]]
@@ -150,6 +180,9 @@ def judge(run, pt, case, replies):
     n = len(case["ws"])
     N, tot = out["N"], out["tot"]
     # ---- the property on the real code
+    if out.get("second"):
+        run.violation("a second calculator built from derived materials (2.5*m, m += H2O) disagrees with the direct "
+                      "calculation: %s" % out["second"], case, site="second-calculator")
     if isinstance(out["calc"], str) or out["direct"] == "missing":
         if not (out["calc"] == "missing" and out["direct"] == "missing"):
             run.violation("a material contains an atom whose SLD is unknown: the calculator %s while the direct calculation "
